@@ -6,6 +6,7 @@ import (
 	"hash/crc32"
 	"strconv"
 	"strings"
+	"sync/atomic"
 	"time"
 
 	"github.com/hashicorp/raft-wal/segment"
@@ -296,10 +297,39 @@ func (s *segImpl) exec(op string) (out string) {
 func execSegment(ops []string) []string {
 	s := newSegImpl()
 	out := make([]string, len(ops))
+	dead := false
 	for i, op := range ops {
-		out[i] = safeExec(func() string { return s.exec(op) })
+		if dead {
+			out[i] = "dead-after-hang"
+			continue
+		}
+		out[i] = timedSeg(func() string { return s.exec(op) })
+		dead = out[i] == "hang"
 	}
 	return out
+}
+
+// timedSeg: an operation of the segment code that does not return (a scan that stops advancing on damaged bytes) is an
+// answer — "hang" — not a hang of the suite; the goroutine is abandoned
+func timedSeg(f func() string) string {
+	done := make(chan string, 1)
+	go func() { done <- safeExec(f) }()
+	select {
+	case o := <-done:
+		return o
+	case <-time.After(segOpDeadline()):
+		atomic.AddInt32(&segHangs, 1)
+		return "hang"
+	}
+}
+
+var segHangs int32
+
+func segOpDeadline() time.Duration {
+	if atomic.LoadInt32(&segHangs) >= 3 {
+		return 2 * time.Second
+	}
+	return 15 * time.Second
 }
 
 func safeExec(f func() string) (out string) {
@@ -343,6 +373,13 @@ func segMonitor(ops, impl []string) []Violation {
 		if out == "panic" {
 			add("C11", "segment code panicked", op, i)
 			continue
+		}
+		if out == "hang" {
+			add("C11", "segment code does not return on these file contents (loops forever)", op, i)
+			break
+		}
+		if out == "dead-after-hang" {
+			break
 		}
 		switch ws[0] {
 		case "new":
@@ -512,6 +549,7 @@ func clipS(s string) string {
 // ---- generator ----
 
 type segGen struct {
+	dead  bool
 	r     *Rng
 	impl  *segImpl
 	ops   []string
@@ -525,7 +563,11 @@ type segGen struct {
 }
 
 func (g *segGen) do(op string) string {
-	o := safeExec(func() string { return g.impl.exec(op) })
+	o := "dead-after-hang"
+	if !g.dead {
+		o = timedSeg(func() string { return g.impl.exec(op) })
+		g.dead = o == "hang"
+	}
 	g.ops = append(g.ops, op)
 	g.out = append(g.out, o)
 	return o
@@ -882,6 +924,26 @@ func mutateFile(r *Rng, data []byte) []byte {
 	b := append([]byte(nil), data...)
 	if len(b) == 0 {
 		return b
+	}
+	if r.Chance(1, 6) {
+		// frame-aware damage: a well-formed looking frame header of any type with a tiny or odd length, placed at a frame
+		// position — on top of an entry frame, or right behind the last bytes in use (where the scan of a tail goes next)
+		pos := -1
+		if offs := entryFrameOffsets(b); len(offs) > 0 && r.Bool() {
+			pos = pick(r, offs)
+		} else {
+			u := len(b)
+			for u > 0 && b[u-1] == 0 {
+				u--
+			}
+			pos = (u + 7) &^ 7
+		}
+		if pos >= 32 && pos+8 <= len(b) {
+			typ := byte(pick(r, []int{1, 2, 2, 2, 3, 4, 5, 0xff}))
+			v := pick(r, []uint32{0, 1, 2, 3, 4, 5, 7, 8, 12, 0xffffffff})
+			copy(b[pos:pos+8], []byte{typ, 0, 0, 0, byte(v), byte(v >> 8), byte(v >> 16), byte(v >> 24)})
+			return b
+		}
 	}
 	if offs := entryFrameOffsets(b); len(offs) > 0 && r.Chance(1, 3) {
 		// frame-aware damage: the length field of one entry frame set to a boundary value, everything else intact
